@@ -18,8 +18,8 @@ PID = "C12"
 LEVEL = "model_checking"
 CLAIM = (
     "Bounded symbolic verification: for every Euler angle (symbolic reals), small-d matrices for 2j<=8 are orthogonal, "
-    "equal 1 at beta=0, satisfy the generator equation d'=-iJ_y d and the index symmetries; D*=e^{i m a} d e^{i m' g} and "
-    "D D^dagger=1 for 2j<=6; d(b1)d(b2)=d(b1+b2) for 2j<=4; real CG coefficients couple d^{j1} x d^{j2} into d^J for every beta "
+    "equal 1 at beta=0, satisfy the generator equation d'=-iJ_y d and the index symmetries; D*=e^{i m a} d e^{i m' g} for 2j<=5 "
+    "(2j<=3 in quick) and D D^dagger=1 directly for 2j<=3 (for 2j = 4, 5 it follows from the entry identity and the orthogonality of d); d(b1)d(b2)=d(b1+b2) for 2j<=4; real CG coefficients couple d^{j1} x d^{j2} into d^J for every beta "
     "(2j1,2j2<=4); Euler angles extracted from every SU(2) element rebuild it; all decided by z3 (unsat). Weight table, CG values "
     "and the bundled table (integer spins, where it is defined) are finite comparisons against exact rational formulas. "
     "This is the right level because the quantifier is over all real angles: no sample of angles can settle it, the solver does."
@@ -291,7 +291,11 @@ def job_full_D(ss, tj):
                 key="D.entry", payload=pay("D_entry", i=i, k=k),
                 describe="D*_{m1 m2}(a,b,g) = exp(i m1 a) d_{m1 m2}(b) exp(i m2 g)",
             )
-    for i in range(n):
+    if tj > 3:
+        # direct unitarity queries for 2j = 4, 5 are only partly decided by nlsat within the limits (measured: 3 of 36 undecided);
+        # for these spins unitarity follows from D.entry (D* = e^{i m1 a} d e^{i m2 g}, decided above) and small_d.orthogonal (2j <= 8)
+        ss.note(name="D.unitary[2j=%d]" % tj, by_composition="D.entry + small_d.orthogonal")
+    for i in range(n if tj <= 3 else 0):
         for k in range(i, n):
             acc = SymComplex(SymReal(T.ZERO), SymReal(T.ZERO))
             for l in range(n):
